@@ -367,6 +367,33 @@ fn run(input: RunInput) -> ScenFuture {
                 }
                 w.probe("mass-abandonment-phase");
             }
+            // the caller gives up on everything at once *and hangs up* (drops its calls and
+            // disconnects in the same instant, or goes away): no stop ever arrives for those
+            // calls, the connection itself ends - and with it every handler it was serving
+            if !lossy && !w.violated() && w.flag("calls_abandoned_by_hanging_up", 0.25) {
+                let n_h = max_bidi.min(4);
+                let seen_before = h.seen().len();
+                let pending: Vec<_> = (0..n_h).map(|i| {
+                    let req = Request::new(Bytes::from(format!("hup{i}"))).with_header("x-nonce", (5_000_000 + i).to_string()).with_header("x-delay-ms", "30000").with_header("x-resp-len", "3");
+                    let (c, sid) = (client.clone(), server.peer_id);
+                    tokio::spawn(async move { c.net.rpc(sid, req).await.is_ok() })
+                }).collect();
+                let t0 = w.now_ns();
+                while (h.seen().len() - seen_before) < n_h as usize && w.now_ns() - t0 < 2_000_000_000 {
+                    sleep_ms(1).await;
+                }
+                for p in &pending {
+                    p.abort();
+                }
+                let _ = client.net.disconnect(server.peer_id);
+                let t_hup = w.now_ns();
+                sleep_ms(4 * lat_max / 1000 + 50).await;
+                let still: Vec<u64> = h.seen().iter().filter(|s| s.nonce.map(|n| n >= 5_000_000).unwrap_or(false) && s.dropped_at_ns.is_none() && s.completed_at_ns.is_none()).filter_map(|s| s.nonce).collect();
+                if !still.is_empty() {
+                    w.violate("abandoned-handler-still-running", "hang-up", format!("the caller dropped {n_h} calls and disconnected at {} ms; {} ms later the handlers of {still:?} are still running", t_hup / 1_000_000, (w.now_ns() - t_hup) / 1_000_000));
+                }
+                w.probe("calls-abandoned-by-hanging-up");
+            }
         } else {
             w.probe("connection-lost(lossy)");
         }
